@@ -26,7 +26,9 @@ git -C /repo checkout -- .
 echo "$out"
 caught=no; echo "$out" | grep -q "^VIOLATION property=$P" && caught=yes
 kind=$(echo "$out" | grep "^VIOLATION" | grep -q no-failing-input-found && echo no-failing-input-found || echo failing-input)
-D=/verif/seeded/$P-$SUF; mkdir -p $D; cp $S/patch.diff $D/; cp $demo $D/demo_test.go; cp $S/NOTES.md $D/ 2>/dev/null
+what=$(python3 -c "import json,sys; r=json.load(open('/verif/replays/$P-quick-1.json')); print((r.get('what') or '')[:300].replace(chr(10),' '))" 2>/dev/null)
+[ "$caught" = no ] && what=""
+D=/verif/seeded/$P-$SUF; mkdir -p $D; echo "$what" > $D/caught_by.txt; cp $S/patch.diff $D/; cp $demo $D/demo_test.go; cp $S/NOTES.md $D/ 2>/dev/null
 python3 - "$P" "$D" "$pre" "$post" "$build" "$pkgsame" "$caught" "$kind" "$PKG" "$RE" <<'PY'
 import json,sys
 P,D,pre,post,build,pkgsame,caught,kind,pkg,rx=sys.argv[1:]
